@@ -1,7 +1,10 @@
 package mpb
 
 import (
+	"runtime"
 	"strings"
+	"sync/atomic"
+	"time"
 
 	"github.com/mattn/go-runewidth"
 )
@@ -30,12 +33,12 @@ func vAssert(c bool, id string) {
 		vFailures = append(vFailures, id)
 	}
 }
-func vCover(id string) { vCovered[id] = true }
-func vYield()          {}
-func vUnwind(n int)    {}
-func vSteps(n int)     {}
-func vSliceCap(n int)  {}
-func vSincePositive()  {}
+func vCover(id string)       { vCovered[id] = true }
+func vYield()                {}
+func vUnwind(n int)          {}
+func vSteps(n int)           {}
+func vSliceCap(n int)        {}
+func vSincePositive()        {}
 func vParam(name string) int { return int(vModel[name]) }
 
 // ---- text vocabulary (native bodies build real strings with the requested display width)
@@ -136,4 +139,29 @@ func vTextSeq(s string) int {
 		}
 	}
 	return seq
+}
+
+// vTrace: debugging aid (prints under the symbolic engine when VCHECK_VTRACE is set); no effect natively.
+func vTrace(tag string, v int) {}
+
+// vJit: schedule perturbation for native replays. The replay build instruments the library's concurrent
+// code with a call before every statement; when switched on it yields or sleeps pseudo-randomly so that
+// the schedule the solver found has a chance to occur. No effect otherwise (and never seen by the engine).
+var vJitOn uint32
+var vJitState uint64
+
+func vJit() {
+	if atomic.LoadUint32(&vJitOn) == 0 {
+		return
+	}
+	x := atomic.AddUint64(&vJitState, 0x9E3779B97F4A7C15)
+	x ^= x >> 30
+	x *= 0xBF58476D1CE4E5B9
+	x ^= x >> 27
+	switch {
+	case x%6 == 0:
+		runtime.Gosched()
+	case x%40 == 1:
+		time.Sleep(time.Duration((x>>20)%300) * time.Microsecond)
+	}
 }
